@@ -168,6 +168,10 @@ type env struct {
 	bm    *common.Model // drv_board: rule-book spec
 	mu    sync.Mutex
 	roots []*root
+
+	// C07: length statistics of the reported variations (all runs of the suite)
+	pvLongest, pv34, pv48 atomic.Int64
+	pvLong                []pvSample // the lines of >= 34 moves, all checked against the Lean rule book
 }
 
 func (e *env) fail(m common.Mismatch) {
@@ -501,6 +505,7 @@ type job struct {
 	warmOn   []int // indices of the roots used for the warm-up
 	warmDeep int   // > 0: additionally warmed by a search of the root itself to this depth (budget 20000 nodes)
 	tag      string
+	longest  int // result slot of a deep C07 run: its longest reported variation
 }
 
 func (j *job) warmD() int {
@@ -1285,6 +1290,19 @@ func (e *env) checkC07(j *job, oc outcome, ops []string) (samples [][]move.Move,
 			}
 			continue
 		}
+		// length statistics of the reported lines (legal or not)
+		for {
+			cur := e.pvLongest.Load()
+			if int64(len(in.pv)) <= cur || e.pvLongest.CompareAndSwap(cur, int64(len(in.pv))) {
+				break
+			}
+		}
+		if len(in.pv) >= 34 {
+			e.pv34.Add(1)
+			if len(in.pv) >= 48 {
+				e.pv48.Add(1)
+			}
+		}
 		ms, bad := replayPV(j.rt, in.pv)
 		if bad >= 0 {
 			fail(fmt.Sprintf("variation of depth %d is illegal at index %d (%s): %s", in.depth, bad, in.pv[bad], strings.Join(in.pv, " ")), oc.out)
@@ -1296,6 +1314,11 @@ func (e *env) checkC07(j *job, oc outcome, ops []string) (samples [][]move.Move,
 		}
 		if len(ms) >= 2 {
 			long++
+		}
+		if len(ms) >= 34 {
+			e.mu.Lock()
+			e.pvLong = append(e.pvLong, pvSample{j.rt, ms, j})
+			e.mu.Unlock()
 		}
 		if in.depth >= 1 && len(ms) == 0 && !j.rt.final {
 			fail(fmt.Sprintf("empty variation reported at depth %d on a non-final root", in.depth), oc.out)
@@ -1344,7 +1367,7 @@ func (e *env) specCheckPV(rt *root, ms []move.Move) (bad int) {
 func (e *env) c07() {
 	e.collectRoots(e.c.Pick(48, 160))
 	e.rootHistogram()
-	e.r.Rule = "one run = search with info output captured (roots as in C06; depth 2..9; hard budgets, soft limits, stop at a random instant; TT fresh / warmed by earlier searches of a game on the same instance / 32000-byte table with heavy collisions); asserted: every `info … pv` line parses, each variation is legal by replay on a fresh board (and by the Lean rule book for a sample), depths strictly increase, node counts never decrease (abort notice included), returned move = head of the most recent non-empty variation, ponder legal after it; non-trivial = run with >= 2 reported variations of length >= 2; distinct by (root, limits, table state)"
+	e.r.Rule = "one run = search with info output captured (roots as in C06; depth 2..9; hard budgets, soft limits, stop at a random instant; TT fresh / warmed by earlier searches of a game on the same instance / 32000-byte table with heavy collisions); asserted: every `info … pv` line parses, each variation is legal by replay on a fresh board (and by the Lean rule book for a sample), depths strictly increase, node counts never decrease (abort notice included), returned move = head of the most recent non-empty variation, ponder legal after it; plus DEEP runs: trivial endings generated from the seed (contested K+P v K, locked pawn chains, K+R v K, K+Q v K, opposite-coloured bishops; both colours, either side to move) searched with a depth limit in 34..63 under a hard budget of 0.7-2.5 M nodes on 1/4/16 MiB tables, same assertions on every line, every line of >= 34 moves also checked by the Lean rule book; non-trivial = run with >= 2 reported variations of length >= 2; distinct by (root, limits, table state)"
 	rng := e.c.Rng
 	type task struct {
 		jobs []*job // a sequence on ONE instance (game order): tables carried over
@@ -1366,6 +1389,11 @@ func (e *env) c07() {
 			k >>= 1
 		}
 		return int(x)
+	}
+	// (0) deep searches of trivial endings first (the longest tasks): lines of 34 and more moves
+	deep := e.deepJobs()
+	for _, j := range deep {
+		tasks = append(tasks, task{jobs: []*job{j}, tt: j.tt})
 	}
 	for _, rt := range e.roots {
 		for v := 0; v < e.c.Pick(250, 500); v++ {
@@ -1428,12 +1456,21 @@ func (e *env) c07() {
 	var specSamples []pvSample
 	parallel(len(tasks), func(ti int) {
 		t := tasks[ti]
-		if t.jobs[0].tag == "single" {
+		if t.jobs[0].tag != "game" {
 			j := t.jobs[0]
 			s := search.New(j.tt)
 			j.warmUp(s, e.roots)
 			oc := run(s, j.rt.build(), j.l, nil)
 			sm, nt := e.checkC07(j, oc, j.ops())
+			if strings.HasPrefix(j.tag, "deep") {
+				longest := 0
+				for _, ms := range sm {
+					if len(ms) > longest {
+						longest = len(ms)
+					}
+				}
+				j.longest = longest
+			}
 			evals.Add(1)
 			if nt {
 				nontriv.Add(1)
@@ -1492,6 +1529,38 @@ func (e *env) c07() {
 	e.r.Count("runs", int(evals.Load()))
 	e.r.Count("runs-with->=2-long-variations", int(nontriv.Load()))
 	e.r.Count("variations-collected", len(specSamples))
+	for _, j := range deep {
+		e.r.Count("deep-runs", 1)
+		e.r.Count("deep-runs:"+strings.TrimPrefix(j.tag, "deep:"), 1)
+		if j.longest >= 34 {
+			e.r.Count("deep-runs:with-a-variation-of->=34-moves", 1)
+			e.r.Count("deep-runs:"+strings.TrimPrefix(j.tag, "deep:")+":with-a-variation-of->=34-moves", 1)
+		}
+		if j.longest >= 48 {
+			e.r.Count("deep-runs:with-a-variation-of->=48-moves", 1)
+		}
+	}
+	e.r.Count("longest-variation-reported(moves)", int(e.pvLongest.Load()))
+	e.r.Count("variations-of->=34-moves", int(e.pv34.Load()))
+	e.r.Count("variations-of->=48-moves", int(e.pv48.Load()))
+	// every long line is also checked against the Lean rule book (at most 40, the longest first)
+	sort.SliceStable(e.pvLong, func(a, b int) bool {
+		if len(e.pvLong[a].ms) != len(e.pvLong[b].ms) {
+			return len(e.pvLong[a].ms) > len(e.pvLong[b].ms)
+		}
+		return e.pvLong[a].rt.key+movesUCI(e.pvLong[a].ms) < e.pvLong[b].rt.key+movesUCI(e.pvLong[b].ms)
+	})
+	for i, sp := range e.pvLong {
+		if i >= e.c.Pick(40, 300) {
+			break
+		}
+		if bad := e.specCheckPV(sp.rt, sp.ms); bad >= 0 {
+			e.fail(common.Mismatch{Property: "C07", Kind: "failing-input", Ops: []string{"position fen " + sp.rt.key, "pv " + movesUCI(sp.ms)},
+				Impl: movesUCI(sp.ms), Spec: fmt.Sprintf("move #%d (%s) is not legal by the rule book", bad, sp.ms[bad]),
+				Note: "reported variation accepted by replay on the engine's board but rejected by the Lean rule book"})
+		}
+		e.r.Count("long-variations-checked-by-lean-spec", 1)
+	}
 	// Lean rule-book check of a sample of the variations (deterministic choice: evenly spaced after sorting)
 	sort.SliceStable(specSamples, func(a, b int) bool {
 		ka := specSamples[a].rt.key + "|" + implutil.MovesStr(specSamples[a].ms)
@@ -1518,6 +1587,155 @@ func (e *env) c07() {
 		e.r.Sample(map[string]any{"root": sp.rt.key, "pv": movesUCI(sp.ms)}, 3)
 	}
 	e.pvModel()
+}
+
+// ---------------------------------------------------------------------------------------------
+// C07: deep searches of trivial endings.  The rows of the triangular PV buffer are only used beyond
+// ply ~32 when a reported line has 34 and more moves, which needs an iteration depth >= 34: only
+// very simple endings get there at an affordable cost.  Families (all generated from the seed, both
+// colours, either side to move):
+//   kpk    king + pawn v king, contested: pawn on its 2nd/3rd rank, the defending king in front of
+//          it, the attacking king next to it (reaches 34..50 move lines within ~1 M nodes)
+//   chain  locked pawn chains (4..7 files) with the kings walking around them
+//   krk, kqk  king + rook / queen v king
+//   ocb    opposite-coloured bishops with a blockaded pawn
+// searched with a depth limit in 34..63 and a hard node budget that bounds the cost.
+
+func fenOf(sq map[int]byte, stm string) string {
+	var sb strings.Builder
+	for r := 7; r >= 0; r-- {
+		empty := 0
+		for f := 0; f < 8; f++ {
+			if p, ok := sq[r*8+f]; ok {
+				if empty > 0 {
+					sb.WriteByte(byte('0' + empty))
+					empty = 0
+				}
+				sb.WriteByte(p)
+			} else {
+				empty++
+			}
+		}
+		if empty > 0 {
+			sb.WriteByte(byte('0' + empty))
+		}
+		if r > 0 {
+			sb.WriteByte('/')
+		}
+	}
+	return sb.String() + " " + stm + " - - 0 1"
+}
+
+// flipColours mirrors the position top to bottom and swaps the colours.
+func flipColours(sq map[int]byte, stm string) (map[int]byte, string) {
+	out := map[int]byte{}
+	for k, p := range sq {
+		q := p ^ 0x20 // swap case
+		out[(7-k/8)*8+k%8] = q
+	}
+	if stm == "w" {
+		return out, "b"
+	}
+	return out, "w"
+}
+
+func (e *env) deepRoots(family string, n int) []*root {
+	rng := e.c.Rng
+	var out []*root
+	seen := map[string]bool{}
+	onBoard := func(r, f int) bool { return r >= 0 && r < 8 && f >= 0 && f < 8 }
+	for tries := 0; len(out) < n && tries < 2000*n; tries++ {
+		sq := map[int]byte{}
+		put := func(r, f int, p byte) bool {
+			if !onBoard(r, f) {
+				return false
+			}
+			if _, ok := sq[r*8+f]; ok {
+				return false
+			}
+			sq[r*8+f] = p
+			return true
+		}
+		ok := true
+		switch family {
+		case "kpk":
+			f, r := rng.IntN(8), 1+rng.IntN(3)/2
+			ok = put(r, f, 'P') &&
+				put(r+2+rng.IntN(4), f+[]int{-1, 0, 0, 1}[rng.IntN(4)], 'k') &&
+				put(r-1+rng.IntN(3), f-2+rng.IntN(5), 'K')
+		case "krk", "kqk":
+			p := byte('R')
+			if family == "kqk" {
+				p = 'Q'
+			}
+			ok = put(rng.IntN(8), rng.IntN(8), 'K') && put(rng.IntN(8), rng.IntN(8), 'k') && put(rng.IntN(8), rng.IntN(8), p)
+		case "ocb":
+			// white pawn blockaded by the black king; white bishop on the colour the pawn's path does not need
+			f, r := rng.IntN(8), 3+rng.IntN(3)
+			ok = put(r, f, 'P') && put(r+1, f, 'k') && put(rng.IntN(r+1), rng.IntN(8), 'K')
+			for _, b := range []byte{'B', 'b'} {
+				br, bf := rng.IntN(8), rng.IntN(8)
+				want := 0 // white bishop on dark squares ((r+f) even), black bishop on light squares
+				if b == 'b' {
+					want = 1
+				}
+				if (br+bf)%2 != want {
+					bf ^= 1
+				}
+				ok = ok && put(br, bf, b)
+			}
+		case "chain":
+			k := 4 + rng.IntN(4)
+			f0 := rng.IntN(9 - k)
+			for f := f0; f < f0+k; f++ {
+				r := 2 + rng.IntN(3)
+				ok = ok && put(r, f, 'P') && put(r+1, f, 'p')
+			}
+			ok = ok && put(rng.IntN(8), rng.IntN(8), 'K') && put(rng.IntN(8), rng.IntN(8), 'k')
+		}
+		if !ok {
+			continue
+		}
+		stm := []string{"w", "b"}[rng.IntN(2)]
+		if rng.IntN(2) == 0 {
+			sq, stm = flipColours(sq, stm)
+		}
+		rt := &root{name: "deep:" + family, fen: fenOf(sq, stm)}
+		if seen[rt.fen] || !e.prepare(rt) || rt.final {
+			continue
+		}
+		seen[rt.fen] = true
+		out = append(out, rt)
+	}
+	return out
+}
+
+// deepJobs draws the deep runs of one c07 run.
+func (e *env) deepJobs() []*job {
+	rng := e.c.Rng
+	type fam struct {
+		name   string
+		n      int
+		budget int
+	}
+	fams := []fam{{"kpk", e.c.Pick(10, 40), 1200000}, {"chain", e.c.Pick(1, 6), 2500000}, {"krk", e.c.Pick(1, 4), 700000}, {"kqk", e.c.Pick(1, 4), 700000}, {"ocb", e.c.Pick(1, 4), 700000}}
+	var out []*job
+	for _, f := range fams {
+		for i, rt := range e.deepRoots(f.name, f.n) {
+			j := &job{rt: rt, tt: []int{1 << 20, 4 << 20, 16 << 20}[rng.IntN(3)], tag: "deep:" + f.name}
+			j.l = limits{depth: 34 + rng.IntN(30), nodes: f.budget}
+			if rng.IntN(2) == 0 {
+				j.l.depth = MaxPlies - 1
+			}
+			if f.name == "kpk" && i%2 == 1 {
+				// room for the 40..50 move lines
+				j.l.nodes = 3000000
+				j.l.depth = MaxPlies - 1
+			}
+			out = append(out, j)
+		}
+	}
+	return out
 }
 
 // ---------------------------------------------------------------------------------------------
